@@ -101,12 +101,14 @@ def run_case(rng, GroupBy, viol_out, res):
     family = rng.choice(["agg", "agg", "cum", "roll", "other"])
     method = rng.choice({"agg": AGGS, "cum": CUMS, "roll": ROLL, "other": OTHER}[family])
     use_series = rng.random() < 0.25 and bykind in ("array", "level_name", "level_num", "levels")
-    case = dict(index_kind=idx_kind, by=bykind, selection=sel, family=family, method=method, series_object=use_series, frame=df.reset_index().to_dict("list"))
+    warm = rng.choice([None, None, "sum", "mean", "cumsum", "max"])
+    nested = rng.random() < 0.3
+    case = dict(warmed_with=warm, nested_selection=nested, index_kind=idx_kind, by=bykind, selection=sel, family=family, method=method, series_object=use_series, frame=df.reset_index().to_dict("list"))
     res.note_case(repr(case), True)
-    res.count("by", bykind); res.count("family", family); res.count("method", method); res.count("index_kind", idx_kind); res.count("selection", str(sel))
+    res.count("by", bykind); res.count("family", family); res.count("method", method); res.count("index_kind", idx_kind); res.count("selection", str(sel)); res.count("warmed_with", str(warm))
     if len(res.samples) < 6 and rng.random() < 0.003:
         res.sample(case)
-    sig = dict(by=bykind, family=family, method=method, selection=str(sel), index_kind=idx_kind)
+    sig = dict(by=bykind, family=family, method=method, selection=str(sel), index_kind=idx_kind, warmed=bool(warm))
 
     def fail(what, obs, exp, **extra):
         viol_out.append(dict(sig={**sig, "what": what, **extra}, case=case, observed=str(obs)[:400], expected=str(exp)[:400], what=f"{method} via groupby_fast({bykind}){'' if sel is None else '[' + str(sel) + ']'}: {what}"))
@@ -123,8 +125,23 @@ def run_case(rng, GroupBy, viol_out, res):
         chosen = sel
     try:
         fgb = obj.groupby_fast(by=by, level=level) if by is not None or level is not None else None
+        # the facade object may have been used before the selection is taken (column selection must be honoured
+        # whatever the object's history): warm it with a value-based call, optionally through a nested selection
+        if warm:
+            try:
+                getattr(fgb, warm)()
+            except Exception:  # noqa: BLE001
+                pass
         if not use_series and sel is not None:
-            fgb = fgb[sel]
+            if nested and isinstance(sel, list) and all(c in ("x", "y") for c in sel) and all(c in df.columns and c not in key_cols for c in ("x", "y")):
+                mid = fgb[["x", "y"]]
+                try:
+                    mid.mean()
+                except Exception:  # noqa: BLE001
+                    pass
+                fgb = mid[sel]
+            else:
+                fgb = fgb[sel]
         pgb = obj.groupby(pby if pby is not None else None, level=level, sort=True) if True else None
         if not use_series and sel is not None:
             pgb = pgb[sel]
